@@ -4,6 +4,9 @@ CONSTANTS
   Alphabet = {}
   MaxLen = 0
   LemmaLen = 0
+  GpgLen = 0
+  StrictDroppedInGpgClasses = FALSE
+  PosStrictMissedByPrepass = FALSE
   ZoneWhatIf = FALSE
   Emit = FALSE
   NoIndentRule = FALSE
